@@ -109,6 +109,10 @@ func genTaskOp(r *core.Rand, o gen.Opts, nShared int, pool int, hot *TaskOp) Tas
 		}
 	case "parse-stmt", "print-own":
 		t.Text = core.RawStr(gen.Statement(r, o))
+		if r.Chance(1, 6) {
+			// an input larger than any internal buffer
+			t.Text = core.RawStr(string(t.Text) + " /* " + strings.Repeat("pad "+salt+" ", r.Pick3(500, 1030, 1800)) + "*/")
+		}
 	case "parse-expr":
 		t.Text = core.RawStr(gen.Cond(r, o, 0))
 	case "own-settimerange", "own-rewrite":
